@@ -127,12 +127,13 @@ Ghost == rn' = RefCheck(prf', TRUE) /\ rg' = RefCheck(prf', FALSE)
 Init == prf = <<>> /\ openp = <<>> /\ w = 0 /\ rn = RefCheck(<<>>, TRUE) /\ rg = RefCheck(<<>>, FALSE)
 
 \* a rule item (anything but a block) at the end of the innermost open block, or of the top level
-AddItem == LET path == openp  i == Len(ItemsAt(prf, path))  pos == Append(path, i) IN
+AddItem == LET path == openp  i == Len(ItemsAt(prf, path))  pos == Append(path, i)
+               pool == CitePool(path, pos)  pool0 == { c \in pool : CW(pos, c) = 0 } IN
            /\ i < Cap(path) /\ CountLeaves(prf) < MaxLeaves
            /\ \E rl \in Rules \ {"subproof"} : \E off \in OffsFor(Budget - w) : \E q \in IdPrefixes(path) : \E a \in Args(rl) :
               LET w1 == w + (IF off = 0 THEN 0 ELSE 1) + a.w IN
               /\ w1 <= Budget
-              /\ \E cs \in Tuples(CitesFor(CitePool(path, pos), pos, Budget - w1), Arity(rl)) :
+              /\ \E cs \in Tuples(IF Budget - w1 <= 0 THEN pool0 ELSE pool, Arity(rl)) :
                  LET w2 == w1 + SumW(pos, cs) IN
                  /\ w2 <= Budget
                  /\ LET nat == NatOf(rl, a.a, cs, prf) IN
